@@ -50,6 +50,9 @@ pub struct Step {
     pub removed: bool,
     /// this step's (single) output is the manifest itself
     pub generator: bool,
+    /// a private input (declared or discovered) whose mtime the command refreshes on every run
+    #[serde(default)]
+    pub touches: Option<String>,
 }
 
 #[derive(Clone, Debug, Serialize, Deserialize, PartialEq)]
